@@ -126,6 +126,9 @@ def _site(name, d, kind):
         return [j("o.pdf")], ["pdf"], lambda c: _figs(["a", "b"]).export(j("o.pdf"), confirm_overwrite=c)
     if name == "lib_export_png":
         return [j("o_a.png"), j("o_b.png")], ["png", "png"], lambda c: _figs(["a", "b"]).export(j("o.png"), confirm_overwrite=c)
+    if name == "lib_export_noext":
+        # no extension in the requested name: savefig() appends the default format, so the files at stake are o_a.png / o_b.png
+        return [j("o_a.png"), j("o_b.png")], ["png", "png"], lambda c: _figs(["a", "b"]).export(j("o"), confirm_overwrite=c)
     if name == "lib_serialize":
         return [j("o.evo")], ["pickle"], lambda c: _figs(["a"]).serialize(j("o.evo"), confirm_overwrite=c)
     # ---- CLI sites
@@ -148,6 +151,8 @@ def _site(name, d, kind):
             return [j("out.pdf")], ["pdf"], runner(base + ["--save_plot", "out.pdf"])
         if what == "save_plot_png":
             return [j("out_raw.png"), j("out_map.png")], ["png", "png"], runner(base + ["--save_plot", "out.png"])
+        if what == "save_plot_noext":
+            return [j("out_raw.png"), j("out_map.png")], ["png", "png"], runner(base + ["--save_plot", "out"])
         if what == "serialize_plot":
             return [j("out.evo")], ["pickle"], runner(base + ["--serialize_plot", "out.evo"])
     if app == "traj":
